@@ -501,8 +501,13 @@ var rStepMenu = []rStep{
 
 // VerifH_C01_Paths: every path of 1..K steps over the step alphabet, with and without [], on every
 // null-free document within the shape bound, against the reference evaluator.
-func VerifH_C01_Paths() {
-	k := 1 + verifChoose(verifParam("K", 2))
+func VerifH_C01_Paths() { c01Paths(verifParam("K", 2)) }
+
+// VerifH_C01_Wide: the same with fewer steps on larger documents (its own parameter set).
+func VerifH_C01_Wide() { c01Paths(verifParam("K", 2)) }
+
+func c01Paths(maxSteps int) {
+	k := 1 + verifChoose(maxSteps)
 	steps := make([]rStep, k)
 	wild := false
 	for i := range steps {
